@@ -1,2 +1,58 @@
-/-! Line driver for C10 (stub; replaced when the model is written). -/
-def main : IO Unit := pure ()
+import MpVerif.C10.Model
+/-! Line driver for C10.  No logic of its own: every answer is a call of a model / generated function.
+
+  enum NAME                 ↦ `enum NAME <value of the translated enumerator expression>`
+  pred C                    ↦ `pred C b1 … b7`   (order of `Gen.Status.predTable`)
+  class C                   ↦ `class C <classify C> <documented C> <candidate C>`
+  table                     ↦ one `row FIRST LAST <description>` line per pre-registered entry, then `end-table`
+  doctable                  ↦ the hand-written documented table, same format
+  report CODE NOBJ PR DU    ↦ `report CODE NOBJ PR DU | <Report>`
+-/
+open MpVerif.C10 MpVerif.Gen.Status
+
+def parseBool (s : String) : Option Bool :=
+  if s == "1" then some true else if s == "0" then some false else none
+
+def handle (out : IO.FS.Stream) (ws : List String) : IO Unit := do
+  match ws with
+  | ["enum", name] =>
+    match enumTable.find? (fun r => r.1 == name) with
+    | some r => out.putStrLn s!"enum {name} {r.2.1}"
+    | none => out.putStrLn "bad-op"
+  | ["pred", c] =>
+    match c.toInt? with
+    | some c =>
+      let bits := predTable.map (fun p => b2s (p.2 c))
+      out.putStrLn s!"pred {c} {" ".intercalate bits}"
+    | none => out.putStrLn "bad-op"
+  | ["class", c] =>
+    match c.toInt? with
+    | some c => out.putStrLn s!"class {c} {(classify c).toStr} {(documented c).toStr} {b2s (candidate c)}"
+    | none => out.putStrLn "bad-op"
+  | ["table"] =>
+    for r in registry do
+      out.putStrLn s!"row {r.1} {r.2.1} {r.2.2}"
+    out.putStrLn "end-table"
+  | ["doctable"] =>
+    for r in documentedTable do
+      out.putStrLn s!"row {r.1} {r.2.1} {r.2.2.1}"
+    for r in documentedSingles do
+      out.putStrLn s!"row {r.1} {r.1} {r.2}"
+    out.putStrLn "end-table"
+  | ["report", c, n, p, d] =>
+    match c.toInt?, n.toNat?, parseBool p, parseBool d with
+    | some c, some n, some p, some d =>
+      let a : Answer := { code := c, nObj := n, hasPrimal := p, hasDual := d }
+      out.putStrLn s!"report {c} {n} {b2s p} {b2s d} | {(report a).toStr}"
+    | _, _, _, _ => out.putStrLn "bad-op"
+  | _ => out.putStrLn "bad-op"
+
+partial def loop (h : IO.FS.Stream) (out : IO.FS.Stream) : IO Unit := do
+  let line ← h.getLine
+  if line.isEmpty then return ()
+  handle out (line.trimAscii.toString.splitOn " ")
+  loop h out
+
+def main : IO Unit := do
+  let out ← IO.getStdout
+  loop (← IO.getStdin) out
